@@ -204,6 +204,8 @@ def run(ctx):
         ctx.ob("R4", o["key"].split(":", 1)[1], o["ok"], o["detail"], where=o["where"])
 
     r5(ctx)
+    ctx.rule("R6", "template scanner keeps literal text: the position literal fragments are cut from advances only when a variable was consumed (a `$` that is no variable stays in the text)")
+    r6(ctx)
 
 
 CHAR_SEQ = re.compile(r"^&?(mut )?(alloc::vec::Vec<char>|\[char\]|core::str::iter::Chars<'_>|core::slice::iter::Iter<'_, char>)$")
@@ -280,3 +282,65 @@ def _range_operands(f, op):
         if o.kind == "agg" and "Range" in (o.ref[2][1].get("adt") or ""):
             out += [x for x in o.ref[2][2] if x[0] != "k"]
     return out
+
+
+def r6(ctx):
+    """create_template cuts the template into literal fragments and variable slots.  Every literal fragment (and the tail) is a slice
+    `tmpl[L..]`/`tmpl[L..x]`; whatever lies between two consecutive values of L and is not a consumed variable is lost.  So L may only be
+    assigned (after its initialisation) where split_first_meta_var returned Some — never on the path that skips a sigil that is no
+    variable.  This is the structural part of "lower-case names and lone sigils stay literal text"; what split_first_meta_var accepts
+    stays value level."""
+    from ..query import option_arms
+    from .c11 import _src_local
+    prog = ctx.prog
+    f0 = ctx.anchor("R6", r"^ast_grep_core::replacer::template::create_template$")
+    if not f0:
+        return
+    f = prog.inlined(f0, keep=("split_first_meta_var",))
+    split = [c for c in f.calls if c.name == "split_first_meta_var" and c.bb in f.live_blocks]
+    ctx.ob("R6", "create_template/recogniser call", len(split) == 1, "%d call(s) of split_first_meta_var" % len(split), where=f0.loc())
+    if len(split) != 1:
+        return
+    arms = option_arms(f, split[0])
+    if not arms or not arms["some"] or not arms["none"]:
+        ctx.ob("R6", "create_template/branch on the recogniser", False, "the result of split_first_meta_var is not branched on in create_template", where=f0.loc())
+        return
+    # literal slices: str index calls on the template (param 1) whose result is turned into an owned String
+    starts = {}
+    n_slices = 0
+    for c in f.calls:
+        if c.name != "index" or c.bb not in f.live_blocks or len(c.args) != 2 or "for str" not in c.best:
+            continue
+        if not any(o.kind == "param" and o.ref == 1 for o in deep_roots(prog, f, c.args[0], TRANSPARENT)):
+            continue
+        owned = [c2 for c2 in f.calls if c2.name in ("to_string", "to_owned", "from", "into") and c2.args and
+                 any(o.kind == "call" and o.ref is c for o in f.trace_operand(c2.args[0]))]
+        if not owned:
+            continue   # a slice that is only searched (`tmpl[cursor..].find`) or handed to the recogniser
+        for o in f.trace_operand(c.args[1]):
+            if o.kind == "agg" and "ops::range::Range" in str(o.ref[2][1].get("adt", "")) and "start" in o.ref[2][1].get("fields", []):
+                n_slices += 1
+                op = o.ref[2][2][o.ref[2][1]["fields"].index("start")]
+                l = _src_local(f, op)
+                if l:
+                    starts.setdefault(l[1], []).append(c)
+    ctx.floor("R6", "literal slices of the template", n_slices, 2)
+    some_blocks = set()
+    for sb in arms["some"]:
+        some_blocks |= set(f.reachable_from(sb, stop=arms["none"]))
+    none_only = set()
+    for nb in arms["none"]:
+        none_only |= set(f.reachable_from(nb, stop=[split[0].bb]))
+    none_only -= some_blocks
+    for l in sorted(starts):
+        bad = []
+        for d in f.defs.get(l, []):
+            if d[0] == "assign" and d[1] in none_only and d[1] in f.live_blocks:
+                rv = d[3]
+                if rv[0] == "use" and rv[1][0] == "k":
+                    continue
+                bad.append(f.loc(f.blocks[d[1]]["s"][d[2]][3]))
+        ctx.ob("R6", "create_template/literal start `%s` advances only with a consumed variable" % f.local_name(l), not bad,
+               "every assignment lies on the path where split_first_meta_var returned Some" if not bad else
+               "the position literal text is cut from is advanced where split_first_meta_var returned None (%s): the text up to and including a `$` that is no variable "
+               "(`$ `, `$lower`, `${`) is dropped from fixes and messages" % bad[:2], where=f0.loc())
